@@ -8,7 +8,7 @@ From Tramp Require Import Model.Base Model.Tlv Model.Fee Model.Classify Model.Sy
 Inductive mstat := MUnproc | MRunning | MReplied (y : reply) | MDone.
 Record mcall := { mc_q : rpc; mc_st : mstat }.
 
-Record held := { hd_uid : N; hd_h : nat; hd_rq : request; hd_t : tramp_info; hd_time : N }.
+Record held := { hd_uid : N; hd_h : nat; hd_rq : request; hd_t : tramp_info; hd_time : N; hd_hung : bool }.
 
 Record mhash := {
   mh_nd : node;
@@ -55,6 +55,10 @@ Definition set_hs (m : mon) (hs : list (nat * mhash)) : mon :=
   {| m_hs := hs; m_held := m_held m; m_answered := m_answered m; m_now := m_now m; m_height := m_height m;
      m_viol := m_viol m; m_first := m_first m; m_kf := m_kf m; m_bad := m_bad m; m_stats := m_stats m |}.
 Definition set_h (m : mon) (h : nat) (x : mhash) : mon := set_hs m (put_h h x (m_hs m)).
+Definition set_held (m : mon) (l : list held) : mon :=
+  {| m_hs := m_hs m; m_held := l; m_answered := m_answered m; m_now := m_now m; m_height := m_height m;
+     m_viol := m_viol m; m_first := m_first m; m_kf := m_kf m; m_bad := m_bad m; m_stats := m_stats m |}.
+Definition live_held (l : list held) : list held := filter (fun s => negb (hd_hung s)) l.
 
 Definition viol (step : N) (p : N) (cond_ok : bool) (m : mon) : mon :=
   if cond_ok then m else
@@ -142,7 +146,7 @@ Section Monitor.
                          mh_funding := mh_funding x;
                          mh_first := if fresh then Some (r_id rq, gate_reject) else mh_first x; mh_snap := mh_snap x |} in
             let m1 := set_h m h x' in
-            {| m_hs := m_hs m1; m_held := m_held m1 ++ [{| hd_uid := r_id rq; hd_h := h; hd_rq := rq; hd_t := t; hd_time := m_now m |}];
+            {| m_hs := m_hs m1; m_held := m_held m1 ++ [{| hd_uid := r_id rq; hd_h := h; hd_rq := rq; hd_t := t; hd_time := m_now m; hd_hung := false |}];
                m_answered := m_answered m1; m_now := m_now m1; m_height := m_height m1; m_viol := m_viol m1; m_first := m_first m1;
                m_kf := m_kf m1; m_bad := m_bad m1; m_stats := m_stats m1 |}
         | KResp (Continue pl') =>
@@ -175,6 +179,9 @@ Section Monitor.
             match q, f with QPay _ _ _ _ _, AppliedButError => set_bad m1 | _, _ => m1 end
         | _ => set_bad m
         end
+    | GHang uid =>
+        (* the handler of this HTLC went away: it still counts for the set's amount, but nobody can answer it any more *)
+        set_held m (map (fun s => if hd_uid s =? uid then {| hd_uid := hd_uid s; hd_h := hd_h s; hd_rq := hd_rq s; hd_t := hd_t s; hd_time := hd_time s; hd_hung := true |} else s) (m_held m))
     | GTimeout h cid =>
         (* a legitimate "timed out" answer to a wait that carried a timeout: the part stays pending, no fault is recorded *)
         let x := get_h m h in
@@ -372,7 +379,7 @@ Section Monitor.
   Definition check_c07 (i : N) (m0 : mon) (outs : list gout) (m : mon) : mon :=
     fold_left (fun acc hx =>
       let h := fst hx in
-      let set := held_of m0 h in
+      let set := live_held (held_of m0 h) in
       let rs := map (fun s => resp_of outs (hd_uid s)) set in
       match filter (fun r => match r with Some _ => true | None => false end) rs with
       | [] => acc
@@ -386,7 +393,7 @@ Section Monitor.
       (* C08: busy => hot, at every instant *)
       let acc := viol i P08 (negb (busy (mh_nd x)) || hot (mh_nd x)) acc in
       (* C06/C11: a set whose lifecycle waits on nothing but its timer is answered within one MPP timeout *)
-      let waiting := match held_of acc h with [] => false | _ => true end in
+      let waiting := match live_held (held_of acc h) with [] => false | _ => true end in
       let late := waiting && negb (outstanding x) && (mh_last_deliver x + mpp_ms c <=? m_now acc)
  in
       if has_bit (m_kf acc) 0 then acc else viol i P06 (negb late) (viol i P11 (negb late) acc))
@@ -406,7 +413,10 @@ Section Monitor.
     let m1 := mon_event i m (t_ev st) (t_out st) in
     let m2 := fold_left (mon_out i m1) (t_out st) m1 in
     let m3 := check_c07 i m1 (t_out st) m2 in
-    mon_after i m3.
+    (* a set that was answered in this step is gone, the hung-up members with it *)
+    let done_hs := map hd_h (filter (fun s => match resp_of (t_out st) (hd_uid s) with Some _ => true | None => false end) (live_held (m_held m1))) in
+    let m4 := set_held m3 (filter (fun s => negb (hd_hung s && existsb (Nat.eqb (hd_h s)) done_hs)) (m_held m3)) in
+    mon_after i m4.
 
   Fixpoint mon_run (i : N) (m : mon) (tr : list tstep) : mon :=
     match tr with
@@ -425,7 +435,7 @@ Definition mon_final (w : world) (finale : bool) (probe_from : option N) (tr : l
   let reqs := flat_map (fun st => match t_ev st with GHtlc rq => [rq] | GBurst rqs => rqs | _ => [] end) tr in
   let m := mon_run w reqs 0 (mon0 w) tr in
   let n := N.of_nat (length tr) in
-  let m := if finale && negb (has_bit (m_kf m) 0) then viol n P06 (match m_held m with [] => true | _ => false end) m else m in
+  let m := if finale && negb (has_bit (m_kf m) 0) then viol n P06 (match live_held (m_held m) with [] => true | _ => false end) m else m in
   match probe_from with
   | None => m
   | Some u0 =>
